@@ -9,9 +9,9 @@ PyJson        json as seen from body_mixin (`json_mod.loads`, C scanner): recurs
               (bytes 0x01..0x7f), any other input goes to the real json.loads.
 Each is compared with the real object on concrete inputs by `validate()`, which the harness runs at import.
 
-fix_relib_optional_group   correction of CrossHair's regex model (belongs in vf/chmodels.py), checked against CPython's
-                           `re` under the tracer by `check_regex_models()` (run by the harness self-test).
-warm_symbolic_tables       builds CrossHair's Unicode tables once, before the runner forks."""
+fix_relib              two corrections of CrossHair's regex model (they belong in vf/chmodels.py), checked against
+                       CPython's `re` under the tracer by `check_regex_models()` (run by the harness self-test).
+warm_symbolic_tables   builds CrossHair's Unicode tables once, before the runner forks."""
 import io
 import itertools
 import json
@@ -378,28 +378,44 @@ def install():
     helpers.urlunquote = py_unquote
 
 
-def fix_relib_optional_group():
-    """Correction of CrossHair 0.0.110's regex model (crosshair.libimpl.relib._internal_match_patterns): the body of
-    a repeat with min_repeat >= 1 - which is also how an optional group `(...)?` is continued - is matched in
-    isolation, without what follows it, so a lazy quantifier inside the group can never extend.  For ombott's
-    `(.+?)(=(.+?))?(;|$)` on ' name="u"; x' the model returned group 1 = ' name="u"' and no value, i.e. the
-    `name` option was lost on every symbolic path (natively: ' name', '"u"').  A repeat of exactly (1, 1) is
-    rewritten to `body + rest`, which keeps the continuation; everything else goes to the original."""
+def fix_relib():
+    """Two corrections of CrossHair 0.0.110's regex model (crosshair.libimpl.relib._internal_match_patterns); they
+    belong in vf/chmodels.py.
+    1. The body of a repeat with min_repeat >= 1 - which is also how an optional group `(...)?` is continued - is
+       matched in isolation, without what follows it, so a lazy quantifier inside the group can never extend.  For
+       ombott's `(.+?)(=(.+?))?(;|$)` on ' name="u"; x' the model returned group 1 = ' name="u"' and no value, i.e.
+       the `name` option was lost on every symbolic path (CPython: ' name', '"u"').  A repeat of exactly (1, 1) is
+       rewritten to `body + rest`, which keeps the continuation.
+    2. `$` without re.MULTILINE matched at the very end only; CPython also matches just before a newline that ends
+       the text (' filename=x\n': the model found no `filename` option).
+    Everything else goes to the original."""
+    import re
     from crosshair.libimpl import relib
-    from re._constants import MAX_REPEAT, MIN_REPEAT
+    from crosshair.tracers import ResumedTracing
+    from re._constants import AT, AT_END, MAX_REPEAT, MIN_REPEAT
     if getattr(relib._internal_match_patterns, "c12_fixed", False):
         return
     original = relib._internal_match_patterns
 
     def _internal_match_patterns(top_patterns, flags, string, offset, allow_empty=True, **kw):
-        if len(top_patterns) > 0:
-            pattern = top_patterns[0]
-            if len(pattern) == 2 and (pattern[0] is MAX_REPEAT or pattern[0] is MIN_REPEAT):   # tuple, or list once rewritten
-                min_repeat, max_repeat, body = pattern[1]
-                if min_repeat == 1 and max_repeat == 1:
-                    return _internal_match_patterns(list(body) + list(top_patterns)[1:], flags, string, offset,
-                                                    allow_empty, **kw)
-        return original(top_patterns, flags, string, offset, allow_empty, **kw)
+        if len(top_patterns) == 0:
+            return original(top_patterns, flags, string, offset, allow_empty, **kw)
+        pattern = top_patterns[0]
+        rest = list(top_patterns)[1:]
+        if len(pattern) == 2 and (pattern[0] is MAX_REPEAT or pattern[0] is MIN_REPEAT):   # tuple, or list once rewritten
+            min_repeat, max_repeat, body = pattern[1]
+            if min_repeat == 1 and max_repeat == 1:
+                return _internal_match_patterns(list(body) + rest, flags, string, offset, allow_empty, **kw)
+        matched = original(top_patterns, flags, string, offset, allow_empty, **kw)
+        if matched is None and len(pattern) == 2 and pattern[0] is AT and pattern[1] is AT_END and not flags & re.MULTILINE:
+            with ResumedTracing():
+                before_last_newline = offset == len(string) - 1 and kw.get("ord", ord)(string[offset]) == 10
+                if not before_last_newline:
+                    return None
+            suffix = _internal_match_patterns(rest, flags, string, offset, allow_empty, **kw)
+            if suffix is not None:
+                return relib._MatchPart([(offset, offset)])._add_match(suffix)
+        return matched
     _internal_match_patterns.c12_fixed = True
     relib._internal_match_patterns = _internal_match_patterns
 
@@ -414,7 +430,7 @@ def check_regex_models():
     from . import engine
     patt = multipart.FieldStorage._patt
     total = 0
-    for template in (' form-data; name="u"; filename="%s"', " form-data%s name=f"):
+    for template in (' form-data; name="u"; filename="%s"', " form-data%s name=f", " x; filename=y%s"):
         head, tail = template.split("%s")
 
         def spans(text):
